@@ -111,6 +111,15 @@ Theorem C12_refuted_D122 : refuted 122. Proof. exact refuted_D122. Qed.
 Print Assumptions C12_refuted_D122.
 Theorem C12_refuted_D124 : refuted 124. Proof. exact refuted_D124. Qed.
 Print Assumptions C12_refuted_D124.
+Theorem C12_refuted_D125 : refuted 125. Proof. exact refuted_D125. Qed.
+Print Assumptions C12_refuted_D125.
+Theorem C12_refuted_D127 : refuted 127. Proof. exact refuted_D127. Qed.
+Print Assumptions C12_refuted_D127.
+Theorem C12_refuted_D126 :
+  LifeServicesRefuted.handler_gen (mid_final (cfg_mid true)) 2%N = None /\
+  LifeServicesRefuted.handler_gen (mid_final (cfg_mid false)) 2%N = Some 1%N.
+Proof. exact refuted_D126. Qed.
+Print Assumptions C12_refuted_D126.
 Theorem C12_refuted_D123 : exists target data h,
   (exists x, In (HGiven x) h /\ kw_key x = 4%N) /\
   ha_call (only 123) target data h = OTypeError /\ ha_call all_off target data h = ODelivered data false.
